@@ -8,8 +8,10 @@ L11 `Choice` — mirrors recognizers_choice/choice/extractors.py (`ChoiceExtract
 
 Quirks kept: `StringUtility.index_of` answers `1` (not −1) when the token is absent; an emoji is appended to the token
 list *before* the pending token; the span start is the first textual occurrence of the matched text
-(`trimmed_source.index(match)`); `ChoiceParser.parse` builds `ChoiceExtractDataResult(ext_result.data)`, i.e. passes the
-extractor's data as the `source` argument, so the score it reads is the default `0.0` and `other_matches` is empty.
+(`trimmed_source.index(match)`); before the `Resolution.score` fix `ChoiceParser.parse` built
+`ChoiceExtractDataResult(ext_result.data)`, i.e. passed the extractor's data as the `source` argument, so the score it
+read was the default `0.0` (`Env.parserKeepsScore = false`); `other_matches` is empty either way (the extractor sets
+it on a local object it then drops).
 -/
 namespace RTV.Choice
 open RTV.Py RTV.Re
@@ -31,6 +33,10 @@ structure Env where
   /-- `ChoiceModel.parse` starts with `parse_results = []` (after /repo 74161fefc): an exception during extraction
       yields no entity; before it surfaced as UnboundLocalError -/
   parseInit : Bool
+  /-- `ChoiceParser.parse`: `true` = `data = ext_result.data` (the extractor's own score is handed on; code after the
+      `spec-field:Boolean:Resolution.score` fix); `false` = `data = ChoiceExtractDataResult(ext_result.data)` (a NEW
+      object whose `source` is the extractor's data and whose score is the constructor default `0.0`; code before) -/
+  parserKeepsScore : Bool
 
 /-! ### `remove_unicode_matches` on the pattern text
 PRE-FIX code (kept for the regression theorems): `re.sub('\\\\u.{4}[\\|\\\\]', '', pattern)` then
@@ -251,10 +257,12 @@ structure EDR (α : Type) where
   source : α
   score : Score := Score.zero
 
-/-- `ChoiceParser.parse`: `data = ChoiceExtractDataResult(ext_result.data)` builds a NEW object with the extractor's
-data object as its `source` argument, so `data.score` is the constructor's default — NOT the extractor's score
-(`e.score`) — and `result.data = ChoiceParseDataResult(data.score, …)` carries that on to `get_resolution`. -/
-def parserScore (e : ER) : Score := ({ source := e.score } : EDR Score).score
+/-- the score `ChoiceParser.parse` hands on to `get_resolution` (`result.data = ChoiceParseDataResult(data.score, …)`):
+the extractor's `top_score` when `data = ext_result.data`; before that fix `data = ChoiceExtractDataResult(ext_result.data)`
+built a NEW object with the extractor's data object as its `source` argument, so `data.score` was the constructor's
+default — NOT the extractor's score. -/
+def parserScore (E : Env) (e : ER) : Score :=
+  if E.parserKeepsScore then e.score else ({ source := e.score } : EDR Score).score
 
 structure MR where
   start : Nat
@@ -268,7 +276,7 @@ deriving Repr, DecidableEq, Inhabited
 `none` = an exception escapes (before /repo 74161fefc `parse_results` was unbound when the `try` block raised). -/
 def recognise (E : Env) (q : Str) : Option (List MR) :=
   match extract E q with
-  | some ers => some (ers.map fun e => ⟨e.start, (e.start : Int) + e.text.length - 1, e.text, e.value, parserScore e⟩)
+  | some ers => some (ers.map fun e => ⟨e.start, (e.start : Int) + e.text.length - 1, e.text, e.value, parserScore E e⟩)
   | none => if E.parseInit then some [] else none
 
 end RTV.Choice
